@@ -17,7 +17,7 @@ Translated from the current source (tie T) and used here unchanged:
 derivation), `Gen.geomEqualDecision` (the decision of `geometry_equal`), `Gen.refBoundsAxis`,
 `Gen.v2vBoundsAxis` (per-axis tests of the two bounds checks), `Gen.mgHead` (the refusals at the
 head of `match_geometry`).  Hand-written (tie C): the loops
-around them, `permute_spatial_axes`, `pad` (constant modes), `__getitem__` with slices
+around them, `permute_spatial_axes`, `pad` (all `PadModes`), `__getitem__` with slices
 (CPython `slice.indices`), `np.allclose`, the 4×4 inverse and product of the transformer. -/
 namespace HdVerif.Match
 open HdVerif HdVerif.Gen
@@ -99,13 +99,19 @@ def affineClose (g h : Geom) (atol : Rat) : Bool :=
 def affineIdentical (g h : Geom) : Bool :=
   decide (g.col 0 = h.col 0) && decide (g.col 1 = h.col 1) && decide (g.col 2 = h.col 2) && decide (g.pos = h.pos)
 
-/-- `self.geometry_equal(other, tol)`; the decision is the translated `Gen.geomEqualDecision` -/
-def geometryEqual (g h : Geom) (tol : Option Rat) : Except ErrKind Bool :=
+/-- `self.geometry_equal(other, tol)` for objects whose arrays have channel extents `cg` / `ch`
+(the size of a channel dimension; a geometry has none); the decision is the translated
+`Gen.geomEqualDecision`, which is handed both the spatial shapes and the channel extents -/
+def geometryEqualC (g h : Geom) (cg ch : Int) (tol : Option Rat) : Except ErrKind Bool :=
   geomEqualDecision g.frameOfRef h.frameOfRef (g.shape 0) (g.shape 1) (g.shape 2) (h.shape 0) (h.shape 1) (h.shape 2)
-    g.cs h.cs tol (affineIdentical g h)
+    cg ch g.cs h.cs tol (affineIdentical g h)
     (match tol with
      | some t => affineClose g h t
      | none => affineIdentical g h)
+
+/-- `geometry_equal` of two geometries (no channels); equal to `geometryEqualC` for all channel
+extents by `geometryEqual_ignores_channels` -/
+def geometryEqual (g h : Geom) (tol : Option Rat) : Except ErrKind Bool := geometryEqualC g h 0 0 tol
 
 /-! ## the volume operations `match_geometry` is composed of -/
 
@@ -134,13 +140,37 @@ def padGeom (g : Geom) (before after : Ax → Int) : Except ErrKind Geom :=
   else
     .ok { g with pos := g.toRef (fun a => -(before a : Rat)), shape := fun a => g.shape a + before a + after a }
 
-/-- `pad([[b0,a0],[b1,a1],[b2,a2]], mode=CONSTANT-like, value c)` -/
-def pad {α : Type} (v : Vol α) (before after : Ax → Int) (c : α) : Except ErrKind (Vol α) :=
+/-- The padding rules of `Volume.pad` (`PadModes`).  The voxel type `α` is arbitrary: for a volume
+with channel dimensions it is the vector of channel values of one voxel (`Ch → β`), the spatial
+operations never look inside it.
+* `constant c` — CONSTANT: every padded voxel is `c` (the same scalar in every channel);
+* `edge` — EDGE (`np.pad(mode='edge')`): the value of the nearest voxel, indices clamped per axis;
+* `stat f` — MINIMUM / MAXIMUM / MEAN / MEDIAN, over the whole array or per channel: one value `f v`
+  computed from the array being padded (`f` is a parameter; the only law used is that it does not
+  depend on the order of the axes). -/
+inductive PadMode (α : Type) where
+  | constant (c : α)
+  | edge
+  | stat (f : Vol α → α)
+
+/-- `np.pad(mode='edge')`: index clamped into the array, axis by axis -/
+def clampIdx (shape : Ax → Int) (j : Ax → Int) : Ax → Int := fun a => max 0 (min (j a) (shape a - 1))
+
+/-- value of a padded voxel whose position in the coordinates of `v` is the out-of-range index `j` -/
+def PadMode.fill {α : Type} (m : PadMode α) (v : Vol α) : (Ax → Int) → α :=
+  match m with
+  | .constant c => fun _ => c
+  | .edge => fun j => v.vox (clampIdx v.geom.shape j)
+  | .stat f => fun _ => f v
+
+/-- `pad([[b0,a0],[b1,a1],[b2,a2]], mode, constant_value, per_channel)` -/
+def pad {α : Type} (v : Vol α) (before after : Ax → Int) (mode : PadMode α) : Except ErrKind (Vol α) :=
   match padGeom v.geom before after with
   | .error e => .error e
   | .ok g =>
     .ok { geom := g,
-          vox := fun k => if inShape v.geom.shape (fun a => k a - before a) then v.vox (fun a => k a - before a) else c }
+          vox := fun k => if inShape v.geom.shape (fun a => k a - before a) then v.vox (fun a => k a - before a)
+                          else mode.fill v (fun a => k a - before a) }
 
 /-- a Python slice with an explicit start -/
 structure Sl where
@@ -270,17 +300,17 @@ def matchPlan (nv tgt : Geom) (steps : Ax → Int) (tol : Rat) : Except ErrKind 
 def requiresPermute (p : Ax → Ax) : Bool := !(p 0 == 0 && p 1 == 1 && p 2 == 2)
 
 /-- pad if required, crop if required (`copy()` when nothing is required: the identity here) -/
-def matchApply {α : Type} (nv : Vol α) (pl : AxisPlan × AxisPlan × AxisPlan) (c : α) : Except ErrKind (Vol α) :=
+def matchApply {α : Type} (nv : Vol α) (pl : AxisPlan × AxisPlan × AxisPlan) (mode : PadMode α) : Except ErrKind (Vol α) :=
   match (if pl.2.2.requiresPad then
-           pad nv (mk3 pl.1.before pl.2.1.before pl.2.2.before) (mk3 pl.1.after pl.2.1.after pl.2.2.after) c
+           pad nv (mk3 pl.1.before pl.2.1.before pl.2.2.before) (mk3 pl.1.after pl.2.1.after pl.2.2.after) mode
          else .ok nv) with
   | .error e => .error e
   | .ok nv1 => if pl.2.2.requiresCrop then getitem nv1 (mk3 pl.1.sl pl.2.1.sl pl.2.2.sl) else .ok nv1
 
-/-- `self.match_geometry(other, mode=CONSTANT-like, constant_value=c, tol=tol)` as written
+/-- `self.match_geometry(other, mode, constant_value, per_channel, tol)` as written
 (after the fixes a5861fb, 79e6ca4, f6a8aef): frame of reference and coordinate system tests,
 alignment, permutation, crop/pad derivation, pad, crop, final comparison with the target. -/
-def matchGeometry {α : Type} (src : Vol α) (tgt : Geom) (tol : Rat) (c : α) : Except ErrKind (Vol α) :=
+def matchGeometry {α : Type} (src : Vol α) (tgt : Geom) (tol : Rat) (mode : PadMode α) : Except ErrKind (Vol α) :=
   match mgHead src.geom.frameOfRef tgt.frameOfRef src.geom.cs tgt.cs with   -- FoR / CS refusals (translated)
   | .error e => .error e
   | .ok _ =>
@@ -293,7 +323,7 @@ def matchGeometry {α : Type} (src : Vol α) (tgt : Geom) (tol : Rat) (c : α) :
   match matchPlan nv.geom tgt steps tol with
   | .error e => .error e
   | .ok pl =>
-  match matchApply nv pl c with
+  match matchApply nv pl mode with
   | .error e => .error e
   | .ok r =>
   match geometryEqual r.geom tgt (some tol) with
